@@ -19,7 +19,15 @@ correspond : allocation patterns with a bounded live set on real engines (harnes
              arguments of failing host-side callbacks recovered by with-handler, data captured by the closure of a
              dead thread: slots back at the baseline, wills registered on that garbage all become ready, and the
              resident set size (/proc/self/statm) after the warm-up rounds vs. at the end stays within a margin that
-             is a fraction of what a never-released root would cost.  Modes: the collector's own policy, and a forced full collection at every 13th allocation.
+             is a fraction of what a never-released root would cost.  Host roots under CONTENTION: 8 threads bouncing fresh
+             self-referencing garbage through private channels at the same time, 12 threads whose results are joined
+             while the others finish (live set O(threads)): slots back at the baseline.  RELOADS: one engine evaluates a
+             script 700 (thorough 4000) times that defines self-recursive / mutually recursive / three-cycle / letrec
+             procedures and their data: global slots in use (symbol map length minus reclaimed slots, harness directive
+             ;;;host-reload) stay within the recycler's largest backlog, the recycler ran, the shadowed values' heap
+             slots are reclaimed.  COMPACTION: garbage cycles (two-cycles, box<->vector, self-capturing closures, rings,
+             chains built tail first) across explicit collections past the first compaction (quick: 1, thorough: 6) of
+             the value list: after a compaction the list has exactly live + max(live, EXTEND_CHUNK) slots.  Modes: the collector's own policy, and a forced full collection at every 13th allocation.
 """
 import os
 import random
@@ -32,8 +40,8 @@ PID = "C19"
 META = {
     "ready": True,
     "category": "proof",
-    "technique": "Lean 4 theorems on the C04 free-list/collector model (free-slot accounting invariant over all operation lists, sweep completeness by graph reachability, reuse before growth, weak box clearing) + heap statistics of the real engine sampled over long allocation patterns with a bounded live set",
-    "level_text": "Proved for all heaps, roots and operation lists (SteelVerif/C19/Props.lean): after every operation alloc_count equals the number of slots whose mark bit is clear, the cursor slot is free and addresses are distinct (count_inv; also for marking several root sets one after the other with summed statistics — and a `decide`d witness that dropping the first counter, the code before b0ffd538, breaks it); after a full collection every slot still marked allocated is reachable from the roots along the fields the marker follows, so garbage of any shape — chains, cycles of any length, self-capturing closures — is free (sweep_complete), and the marker follows no field outside the specification table; allocate always hands out an existing free slot and extends the list only when it took the last one (reuse_before_grow); a weak box whose private slot is unreachable reports cleared after a collection; root_token_release: in the host-root table (keys (generation, offset), generation bumped by every full collection) a value whose token was dropped — after any number of other roots, drops and collections — is a host root of no later collection, and until then it is one (root_token_live), with a `decide`d witness that releasing under the CURRENT generation leaks once a collection separates rooting and release; heap_bounded: for every operation list (allocations under the 95 % policy, explicit collections anywhere) in which each full collection finds at most M >= EXTEND_CHUNK live slots, the number of slots never exceeds 2*M*2^RESET_LIMIT (= max(L, 25600) * 2^10 for the constants of the code) and grow_count stays in 1..RESET_LIMIT+1, independent of the number of operations (the hypothesis bounds what a full collection MARKS, markedCount - every marked slot is reachable, markedCount_le_reachable, and there are at most as many as slots, markedCount_le_length, and if every reachable address lies in a list of length M then at most M are marked, markedCount_le_of_reachable; liveOK_alloc_gcFull instantiates it on a run that allocates and collects; growth-then-compaction policy; the policy leaves two free slots so FreeList::allocate itself never extends); the constants and the policy are tied to the source on every run: translate/c04_edges.py reads EXTEND_CHUNK (both impl FreeList blocks), RESET_LIMIT, the initial grow_by of FreeList::new and recognises the statements of grow_by / grow / compact / is_heap_full / percent_full and, in all three copies of the collection routine, the 0.95 threshold and `compact if grow_count > RESET_LIMIT else grow`; model_constants_match_source (decide) states that the model's default parameters ARE those constants, that they satisfy heap_bounded's side conditions and that every policy statement the model transcribes was found, and heap_bounded_source instantiates the bound with them (today: max(L, 25600) * 1024 slots). Resident memory of the process (Arc allocations, Vec capacity, the allocator, reference-counted data whose release depends on steel-rc — property C05) is outside the model: the 'bounded memory' clause is checked on runs only (slot counts against the bound, RSS plateau over rounds with a constant live set).",
+    "technique": "Lean 4 theorems on the C04 free-list/collector model (free-slot accounting invariant over all operation lists, sweep completeness by graph reachability, reuse before growth, weak box clearing, bounded number of slots) and on a model of the host-root table + facts regenerated from closed.rs (policy constants and statements, RootToken::drop frees unconditionally, the slot recycler's root walk skips its candidates) checked by `decide` + heap statistics, global-slot counts and resident memory of the real engine sampled over long allocation patterns with a bounded live set (single thread, several threads contending on the root table, script reloads on one engine, cyclic garbage across compactions)",
+    "level_text": "Proved for all heaps, roots and operation lists (SteelVerif/C19/Props.lean): after every operation alloc_count equals the number of slots whose mark bit is clear, the cursor slot is free and addresses are distinct (count_inv; also for marking several root sets one after the other with summed statistics — and a `decide`d witness that dropping the first counter, the code before b0ffd538, breaks it); after a full collection every slot still marked allocated is reachable from the roots along the fields the marker follows, so garbage of any shape — chains, cycles of any length, self-capturing closures — is free (sweep_complete), and the marker follows no field outside the specification table; allocate always hands out an existing free slot and extends the list only when it took the last one (reuse_before_grow); a weak box whose private slot is unreachable reports cleared after a collection; root_token_release: in the host-root table (keys (generation, offset), generation bumped by every full collection) a value whose token was dropped — after any number of other roots, drops and collections — is a host root of no later collection, and until then it is one (root_token_live), with a `decide`d witness that releasing under the CURRENT generation leaks once a collection separates rooting and release; heap_bounded: for every operation list (allocations under the 95 % policy, explicit collections anywhere) in which each full collection finds at most M >= EXTEND_CHUNK live slots, the number of slots never exceeds 2*M*2^RESET_LIMIT (= max(L, 25600) * 2^10 for the constants of the code) and grow_count stays in 1..RESET_LIMIT+1, independent of the number of operations (the hypothesis bounds what a full collection MARKS, markedCount - every marked slot is reachable, markedCount_le_reachable, and there are at most as many as slots, markedCount_le_length, and if every reachable address lies in a list of length M then at most M are marked, markedCount_le_of_reachable; liveOK_alloc_gcFull instantiates it on a run that allocates and collects; growth-then-compaction policy; the policy leaves two free slots so FreeList::allocate itself never extends); the constants and the policy are tied to the source on every run: translate/c04_edges.py reads EXTEND_CHUNK (both impl FreeList blocks), RESET_LIMIT, the initial grow_by of FreeList::new and recognises the statements of grow_by / grow / compact / is_heap_full / percent_full and, in all three copies of the collection routine, the 0.95 threshold and `compact if grow_count > RESET_LIMIT else grow`; model_constants_match_source (decide) states that the model's default parameters ARE those constants, that they satisfy heap_bounded's side conditions and that every policy statement the model transcribes was found, and heap_bounded_source instantiates the bound with them (today: max(L, 25600) * 1024 slots). root_token_release rests on RootToken::drop always calling Roots::free: root_token_drop_always_frees (decide over the two extracted bodies of `fn drop`: exactly one unconditional free each, no try_lock / condition / early return), with the decided witness release_skipped_when_busy_leaks for the variant that gives up when the table is busy. recycler_root_walk_skips_candidates (decide over the extracted statements of GlobalSlotRecycler::recycle): the first walk starts from the non-candidate globals only, candidates come from the drained shadowed list, live candidates are walked to a fixed point - so a shadowed recursive procedure cannot keep its own slot alive; that the recycler then reclaims them is checked on reload runs, not proved (the recycler's model is C06's). Resident memory of the process (Arc allocations, Vec capacity, the allocator, reference-counted data whose release depends on steel-rc — property C05) is outside the model: the 'bounded memory' clause is checked on runs only (slot counts against the bound, RSS plateau over rounds with a constant live set).",
     "level_note": "Trusted: Lean kernel, the C04 translator and tables, harness/generator/comparison, the #%verif-heap-stats hook. Deferred cross-thread reference drops (steel-rc merge queues, property C05) and will executors are not modelled.",
 }
 
@@ -112,6 +120,52 @@ HOSTPATTERNS = {
     "dead-thread-captured-data": ("""(struct blob (a b))
 (define (round) (let* ((payload (blob (make-bytes 1000000 5) (list 1 2 3))) (t (spawn-native-thread (lambda () (bytes-length (blob-a payload)))))) (thread-join! t) (box 1) 0))""", 20, 200, 1000, 64000),
 }
+
+# Host roots under contention: N threads, each bouncing fresh self-referencing garbage through a PRIVATE channel
+# (send roots the message, receive drops the token - at most one message per thread is ever pending), all at the
+# same time, so that taking and dropping tokens of different threads collide on the root table.  Live set: O(N).
+MT_BOUNCE = """(define (bounce n tag) (let* ((ch (channels/new)) (tx (channels-sender ch)) (rx (channels-receiver ch)))
+  (let loop ((i 0) (acc 0)) (if (= i n) acc (begin (channel/send tx (mutable-vector tag i (selfbox))) (loop (+ i 1) (+ acc (mut-vector-ref (channel/recv rx) 1))))))))
+(define (round) (let ((ts (map (lambda (k) (spawn-native-thread (lambda () (bounce @PER@ k)))) (range 0 @THREADS@)))) (map thread-join! ts) 0))"""
+# second form: the rooted values are thread results collected by one joiner while the other threads still finish
+MT_RESULTS = """(define (worker k) (lambda () (mutable-vector k (selfbox) (selfbox))))
+(define (round) (let ((ts (map (lambda (k) (spawn-native-thread (worker k))) (range 0 @THREADS@)))) (map (lambda (t) (mut-vector-ref (thread-join! t) 0)) ts) 0))"""
+
+# Reloading a script on ONE engine: every run of the script is a top-level evaluation that defines the same
+# globals again, so the previous values are shadowed; the global-slot recycler (runs when more than
+# 100/200/400/800 shadowed slots are queued) must hand their slots out again - also when the shadowed values
+# are (mutually) recursive procedures, whose own code mentions their own slot.  name -> (script, definitions)
+RELOADS = {
+    "self-recursive-over-table": ("(define table (mutable-vector 1 2 3))\n(define (sum-table i) (if (< i 3) (+ (mut-vector-ref table i) (sum-table (+ i 1))) 0))\n(sum-table 0)", 2),
+    "mutually-recursive": ("(define (ev? n) (if (= n 0) #t (od? (- n 1))))\n(define (od? n) (if (= n 0) #f (ev? (- n 1))))\n(ev? 4)", 2),
+    "three-cycle-and-data": ("(define data (box (list 1 2 3)))\n(define (fa n) (if (= n 0) (length (unbox data)) (fb (- n 1))))\n(define (fb n) (if (= n 0) 1 (fc (- n 1))))\n(define (fc n) (if (= n 0) 2 (fa (- n 1))))\n(fa 7)", 4),
+    "recursive-closure-in-global": ("(define walk (letrec ((go (lambda (l acc) (if (null? l) acc (go (cdr l) (+ acc (car l))))))) go))\n(define (use) (walk (list 1 2 3) 0))\n(use)", 2),
+    "not-recursive": ("(define cfg (mutable-vector 1 2))\n(define (get) (mut-vector-ref cfg 0))\n(get)", 2),
+}
+RECYCLER_MAX_THRESHOLD = 800
+
+
+def reload_program(name, n):
+    script, _ = RELOADS[name]
+    return PRE + "0\n;;;---\n(#%%gc-collect)\n(live)\n;;;---\n;;;host-reload %d\n%s\n;;;---\n(#%%gc-collect)\n(live)" % (n, script)
+
+
+# Cyclic garbage past a COMPACTION of the free list.  The list is compacted by the full collection that finds
+# grow_count > RESET_LIMIT; every explicit collection request grows the list, so RESET_LIMIT requests bring the
+# value list to 25 856 * 2^8 slots (about 450 MB) and the next one compacts.  Between the requests the program
+# makes garbage cycles; after a compaction the list must consist of exactly the live slots plus
+# max(live, EXTEND_CHUNK) fresh ones (`Heap.compact` of the model) - a compaction that keeps dead slots shows as
+# a larger list, and over several rounds as a list that no longer returns to that size.
+COMPACT = PRE + """(define (two-cycle) (let ((a (box 0)) (b (box 0))) (set-box! a b) (set-box! b a) 0))
+(define (vec-cycle) (let ((a (box 0))) (set-box! a (mutable-vector a a)) 0))
+(define (self-closure) (letrec ((f (lambda () f))) (box f)) 0)
+(define (chain-tail-first n) (let loop ((i 0) (prev (box 'end))) (if (= i n) 0 (loop (+ i 1) (box prev)))))
+(define (cycles n) (if (= n 0) 0 (begin (two-cycle) (vec-cycle) (self-closure) (ring-box (+ 2 (modulo n 5))) (chain-tail-first 3) (cycles (- n 1)))))
+(define (round k acc) (if (= k 0) (reverse acc) (begin (cycles @N@) (#%gc-collect) (round (- k 1) (cons (#%verif-heap-stats) acc)))))
+0
+;;;---
+(round @K@ '())"""
+
 
 WILLS = HOSTPRE + """(define ch (channels/new))
 (define tx (channels-sender ch))
@@ -227,6 +281,13 @@ def run(ctx):
     scale = 1 if ctx.quick() else 5
     for hname, (defs, warm, rounds, _, _) in HOSTPATTERNS.items():
         jobs.append(("host:" + hname, None, HOSTPRE + defs + "\n0\n;;;---\n(measure '%s %d %d round)" % (hname, warm, rounds * scale), rounds * scale * 3))
+    for hname, defs, threads, per in (("mt-channel-bounce", MT_BOUNCE, 8, 2500), ("mt-thread-results", MT_RESULTS, 12, 0)):
+        rounds = (16 if hname == "mt-channel-bounce" else 60) * scale
+        jobs.append(("mthost:" + hname, None, HOSTPRE + defs.replace("@THREADS@", str(threads)).replace("@PER@", str(per)) +
+                     "\n0\n;;;---\n(measure '%s 2 %d round)" % (hname, rounds), rounds * threads * max(per, 1) * 3))
+    for rname in RELOADS:
+        jobs.append(("reload:" + rname, None, reload_program(rname, 700 if ctx.quick() else 4000), 700))
+    jobs.append(("compaction", None, COMPACT.replace("@N@", "300").replace("@K@", str(12 if ctx.quick() else 64)), 12 * 300 * 12))
     jobs.append(("wills-on-garbage", None, WILLS, 80))
     jobs.append(("two-threads", None, MT.replace("@N@", str(30000 if ctx.quick() else 1000000)), 60000))
     # regression witnesses of fixed defects and witnesses of open findings
@@ -266,6 +327,64 @@ def run(ctx):
                 ctx.violation("C19-wills-on-garbage.scm", ";; 40 self-referencing boxes went through a channel across a full collection and 40 were "
                               "arguments of failing host callbacks; all are unreachable: after a full collection the wills registered on them must all "
                               "become ready (80), observed %s\n%s\n" % (got, text))
+            continue
+        if name.startswith("mthost:"):
+            r = parse_list(lines[-1][3:].split("|")[-1])
+            base, end, r0, r1 = r[1], r[2], r[3], r[4]
+            stats["patterns"][label] = {"baseline_live": base, "final_live": end, "rss_after_warmup_kb": r0, "rss_at_end_kb": r1}
+            stats["leak_checks"] += 2
+            bad = []
+            if end[0] > base[0] or end[1] > base[1]:
+                bad.append("after the final full collection %s slots are allocated (values, vectors), before the pattern %s: messages / "
+                           "results that every thread has received and dropped are still roots" % (end, base))
+            if r1 - r0 > 48000 * scale:
+                bad.append("resident memory grew by %d kB with a live set of one message per thread" % (r1 - r0))
+            if bad:
+                ctx.violation("C19-%s.scm" % label.replace(":", "-"), ";; pattern %s (timing dependent: several threads take and drop host-root "
+                              "tokens at the same time)\n;; %s\n%s\n" % (label, "\n;; ".join(bad), text))
+            continue
+        if name.startswith("reload:"):
+            glob = [parse_list(l[len("globals "):]) for l in lines if l.startswith("globals ")]
+            lives = [parse_list(l[3:].split("|")[-1]) for l in lines if re.match(r"ok (0\|)*\(\d+ \d+\)$", l)]
+            ndefs = RELOADS[name[7:]][1]
+            stats["leak_checks"] += len(glob)
+            bad = []
+            if len(glob) < 11 or len(lives) < 2:
+                bad.append("unexpected output %s" % [l[:80] for l in lines])
+            else:
+                in_use = [g[0] - g[2] for g in glob]
+                allowed = in_use[0] + RECYCLER_MAX_THRESHOLD + 2 * ndefs + 8
+                stats["patterns"][label] = {"global_slots_in_use_every_tenth": in_use, "allowed": allowed, "recycler_epoch": glob[-1][4],
+                                            "live_heap_slots_before_after": lives}
+                if max(in_use) > allowed:
+                    bad.append("global slots in use (length of the symbol map minus reclaimed slots) after each tenth of the reloads: %s; "
+                               "with the recycler's largest threshold of %d queued slots at most %d are explained: shadowed definitions are "
+                               "never recycled" % (in_use, RECYCLER_MAX_THRESHOLD, allowed))
+                if glob[-1][4] == glob[0][4] and glob[-1][3] == glob[0][3] and max(g[2] for g in glob) == 0:
+                    bad.append("the slot recycler never ran during the reloads: %s" % glob)
+                if lives[-1][0] > lives[0][0] + 3 * (RECYCLER_MAX_THRESHOLD + 2 * ndefs) or lives[-1][1] > lives[0][1] + RECYCLER_MAX_THRESHOLD + 2 * ndefs:
+                    bad.append("heap slots still allocated after the reloads and a full collection: %s (before: %s)" % (lives[-1], lives[0]))
+            if bad:
+                ctx.violation("C19-%s.scm" % label.replace(":", "-"), ";; pattern %s: one engine, the script below evaluated again and again\n;; %s\n%s\n" % (
+                    label, "\n;; ".join(bad), text))
+            continue
+        if name == "compaction":
+            samples = parse_list(lines[-1][3:].split("|")[-1])
+            bad = judge_samples(label, samples, stats)
+            comps = [s for prev, s in zip(samples, samples[1:]) if s[3] < prev[3]]      # grow_count fell: compacted
+            stats["leak_checks"] += len(comps)
+            stats["patterns"][label] = {"collections": len(samples), "compactions": len(comps),
+                                        "slots_after_each_compaction": [c[0] for c in comps], "max_total": max(s[0] for s in samples)}
+            if len(comps) < (1 if ctx.quick() else 6):
+                bad.append("too few compactions in %d explicit collections (grow_count: %s)" % (len(samples), [s[3] for s in samples]))
+            for c in comps:
+                live_now = c[0] - c[1]
+                if c[0] != live_now + max(live_now, 25600):
+                    bad.append("after a compaction the value list has %d slots of which %d are allocated: compaction keeps exactly the "
+                               "allocated slots and adds max(live, EXTEND_CHUNK) = %d, i.e. %d expected - %d dead slots survived it" % (
+                                   c[0], live_now, max(live_now, 25600), live_now + max(live_now, 25600), c[0] - live_now - max(live_now, 25600)))
+            if bad:
+                ctx.violation("C19-compaction.scm", ";; cyclic garbage across compactions of the value list\n;; %s\n%s\n" % ("\n;; ".join(bad[:6]), text))
             continue
         if name.startswith("host:"):
             r = parse_list(lines[-1][3:].split("|")[-1])
